@@ -662,6 +662,12 @@ class BaseCartesianData(BaseData, metaclass=abc.ABCMeta):
         # listeners may re-compute masks straight away)
         _clear_subset_state_caches()
 
+        # The same applies to cached fixed resolution buffers, which do not
+        # keep track of the links they were computed with.
+        from glue.core.fixed_resolution_buffer import ARRAY_CACHE, PIXEL_CACHE
+        ARRAY_CACHE.clear()
+        PIXEL_CACHE.clear()
+
         if self.hub:
             msg = ExternallyDerivableComponentsChangedMessage(self)
             self.hub.broadcast(msg)
